@@ -97,8 +97,8 @@ def run(rep):
     # s_to_st on a generic symmetric tensor
     F = sym2("F")
     check_helper(rep, "s_to_st", [F], lambda cfg: (
-        "R[i+1,j+1] = F[i,j]" if not any(cfg.get("in:" + k) for k in
-                                         ("betaup3", "betax", "betay", "betaz")) else
+        "R[i+1,j+1] = F[i,j]" if all(cfg.get("in:" + k) is False for k in
+                                     ("betaup3", "betax", "betay", "betaz")) else
         "R[i+1,j+1] = F[i,j]; R[0,0] = betaup3[i]*betaup3[j]*F[i,j]; "
         "R[0,k+1] = betaup3[i]*F[i,k]; R[k+1,0] = betaup3[i]*F[i,k]"), {"F": F}, "generic")
     rep.floor("reference-agreement", 30)
